@@ -199,7 +199,11 @@ func genCore(r *rand.Rand) (*coreCase, []string) {
 			}
 			seq++
 			if mode == 3 && r.Intn(8) == 0 { // jump in sequence numbers (either direction)
-				seq += uint16(r.Intn(65536))
+				if r.Intn(2) == 0 {
+					seq += []uint16{32766, 32767, 32768, 32769, 65535, 65534}[r.Intn(6)] // half-range edge (seq was already advanced by 1)
+				} else {
+					seq += uint16(r.Intn(65536))
+				}
 			}
 		}
 		ts += tsStep
